@@ -6,28 +6,28 @@ props = [json.loads(l) for l in open(os.path.join(ROOT, "properties.jsonl"))]
 
 TECH = {
  "C01": "model-based stateful property testing (proptest histories vs. reference BTreeMap with object identities)",
- "C02": "model-based property testing with per-call measurement (hash log per object, counting allocator) against the stated bounds",
+ "C02": "model-based property testing with per-call measurement (hash log per object, counting allocator; per pulled item inside extend) against the stated bounds",
  "C03": "model-based property testing; per-call progress oracle on hook state + counting allocator (live tables)",
  "C04": "boundary-aimed model-based property testing with a fill-to-capacity probe; debug and release builds",
  "C05": "model-based property testing with canary/liveness-tracking elements and cursor invariant; same cases under AddressSanitizer; thorough adds coverage-guided libFuzzer+ASan and Miri",
  "C06": "model-based property testing with an object ledger (drop-tracked keys and values) and live-table accounting",
  "C07": "fault enumeration: panic injected at every invocation index of every callback kind of generated (state, op) pairs; consistency oracle + continued history",
- "C08": "model-based property testing: iterator batteries (multiset, exact len per step, fusedness, clone independence, prefixes)",
+ "C08": "model-based property testing: iterator batteries (multiset, exact len per step, fusedness, clone independence, prefixes, fold/for_each vs next, count/last/nth/skip, nth past the end of drain/into_iter)",
  "C09": "model-based property testing: generated predicates, call log, partition oracle, early drop / forget points",
- "C10": "property testing of contracts over generated boundary and huge arguments in every phase; debug and release builds",
- "C11": "two-slot model-based property testing: deep-copy, equality, independence, hasher adoption",
+ "C10": "property testing of contracts over generated boundary and huge arguments in every phase, follow-up insertions through insert / entry / raw entry / filtered extend, try_reserve under an injected allocation limit; debug and release builds",
+ "C11": "two-slot model-based property testing: deep-copy, equality, independence, hasher adoption (lookups and hasher())",
  "C12": "model-based property testing over generated entry/raw-entry method chains simulated on the model entry",
  "C13": "model-based property testing of HashSet histories + BTreeSet algebra over pairs in both operand orders",
  "C14": "metamorphic property testing: different histories reaching the same (or minimally different) contents",
- "C15": "differential property testing: rayon traversal vs sequential on generated states x pool sizes x repetitions",
- "C16": "round-trip property testing: serde_test token streams from iter(), JSON round trip, deserialize_in_place",
+ "C15": "differential property testing: rayon traversal (collect, reductions, for_each, short-circuiting searches) vs sequential on generated states x pool sizes 1..32 x repetitions; NaN values, repeated and distinguishable keys for the constructors",
+ "C16": "round-trip property testing: serde_test token streams from iter(), JSON round trip, deserialize_in_place (also of an empty sequence), zero-sized elements, differently seeded S::default()",
  "C17": "differential property testing: identical generated histories through debug and release builds, transcripts compared",
 }
 LEVEL_TEXT = {
  "C07": "fault enumeration: for every explored (state, operation) pair, every crash point (each invocation of each callback kind, exhaustive up to 64 per kind, sampled above) is executed; states themselves are sampled by generation",
 }
 DEFAULT_LEVEL = "exploration: the property is decided on generated histories only (counts and distributions in the evidence file); a minimal failing history is shrunk and saved as replay file. No absence proof."
-NOTE = "trusts: the harness (interpreter, reference model, instrumentation) and the read-only verif-hooks; hashers limited to four deterministic modes; sizes bounded per tier (see DESIGN.md section 4)"
+NOTE = "trusts: the harness (interpreter, reference model, instrumentation) and the read-only verif-hooks; hashers limited to four deterministic modes (S::default() instances seeded differently, deterministically); sizes bounded per tier (see DESIGN.md section 4 and 9.16-9.20)"
 
 checks = []
 for p in props:
@@ -59,7 +59,7 @@ m = {
   {"name": "check", "path": "check", "serves_properties": [p["id"] for p in props], "kind_free_text": "python3 driver: mirrors /repo, builds flavours (dbg/rel/asan), replays saved cases, runs 16 workers, aggregates evidence"},
  ],
  "checks": checks,
- "notes": "All 17 properties are decided by property-based testing / fuzzing. Genuine defects found (D1-D6) were repaired by five `fix:` commits in /repo; see known_findings.json and DESIGN.md section 2 and 9.",
+ "notes": "All 17 properties are decided by property-based testing / fuzzing. Genuine defects found (D1-D6) were repaired by five `fix:` commits in /repo; see known_findings.json and DESIGN.md section 2 and 9. Sensitivity against ~245 seeded changes (eight rounds of independent sub-agents plus hand-written ones) is tabulated in DESIGN.md section 10; tools/selfcheck.py runs every quick check on the unchanged tree and treats foreign failures as errors.",
  "not_applicable": [],
 }
 json.dump(m, open(os.path.join(ROOT, "MANIFEST.json"), "w"), indent=1)
